@@ -71,7 +71,7 @@ def expected_geometry(page):
 
 
 def make_spec(rng, pt, pf, ps, fn, sr, pbh, strat, hdr, size):
-    nrows = {0: rng.randint(1, 3), 1: rng.randint(9, 16), 2: rng.randint(30, 45)}[size]
+    nrows = {0: rng.choice([0, 1, 1, 2, 3]), 1: rng.randint(9, 16), 2: rng.randint(30, 45)}[size]
     strategy = {"plain": "plain", "page_by": rng.choice(["page_by", "page_by_new", "page_by_new_first"]),
                 "subline": "subline"}[strat]
     spec = G.gen_table_spec(rng, nrows=nrows, ncols=(1, 4), strategy=strategy, header=hdr, nrow=9,
@@ -163,7 +163,7 @@ def check_doc(ctx, spec, out, case):
                 exp_rows = len(hdr)
             if not (p == 0 or pbh):
                 exp_rows = 0
-            if nh != exp_rows and cnt("data", "heading"):
+            if nh != exp_rows:
                 ctx.violation(f"{nh} column-header rows on page {p + 1}/{n} (pageby_header={pbh}, expected {exp_rows})",
                               case, {"page": p, "got": nh, "want": exp_rows})
         # geometry
@@ -242,7 +242,7 @@ def gen_random(rng):
     if rng.random() < 0.35:
         spec = G.gen_figure_spec(rng, nfig=(1, 6), rich=0.0)
         return spec
-    spec = G.gen_table_spec(rng, nrows=rng.choice([(1, 4), (8, 20), (25, 60)]), ncols=(1, 5),
+    spec = G.gen_table_spec(rng, nrows=rng.choice([(0, 4), (8, 20), (25, 60)]), ncols=(1, 5),
                             strategy=rng.choice(["plain", "page_by", "page_by_new", "subline", "nested",
                                                  "subline_page_by"]),
                             nrow=rng.randint(6, 14), attrs_p=0.0, rich=0.0, col_rel_width=False)
